@@ -123,7 +123,7 @@ def s_fonts():
 def s_forms_images():
     img = bytes((i * 7) % 256 for i in range(4 * 3))
     rgb = bytes((i * 11) % 256 for i in range(2 * 2 * 3))
-    content = b"q 100 0 0 80 50 600 cm /Im1 Do Q /Fm1 Do BT /F1 9 Tf 10 10 Td (after) Tj ET q 20 0 0 20 300 300 cm BI /W 2 /H 2 /BPC 8 /CS /G ID \x00\x7f\xff\x10 EI Q /Im2 Do 1 0 0 RG 0 1 0 rg /DeviceCMYK cs 0 0 0 1 sc 5 w [2 1] 0 d 10 10 m 20 20 30 20 40 10 c S"
+    content = b"q 100 0 0 80 50 600 cm /Im1 Do Q /Fm1 Do BT /F1 9 Tf 10 10 Td (after) Tj ET q 20 0 0 20 300 300 cm BI /W 2 /H 2 /BPC 8 /CS /G /F [/AHx] /DP [null] ID 007fff10> EI Q /Im2 Do 1 0 0 RG 0 1 0 rg /DeviceCMYK cs 0 0 0 1 sc 5 w [2 1] 0 d 10 10 m 20 20 30 20 40 10 c S"
     formc = b"0.5 g BT /F1 8 Tf 5 5 Td (in form) Tj ET /Fm2 Do"
     formc2 = b"1 0 0 rg 0 0 10 10 re f"
     o = {
@@ -187,7 +187,7 @@ def s_labels_outlines():
         10: content_stream(b"BT /F1 10 Tf 10 200 Td (third) Tj ET"),
         11: std_font(b"Times-Bold"),
         12: {b"Kids": [Ref(13, 0)]},
-        13: {b"Nums": [0, {b"S": Name(b"r")}, 1, {b"S": Name(b"D"), b"St": 5, b"P": Str(b"A-")}], b"Limits": [0, 1]},
+        13: {b"Nums": [0, {b"S": Name(b"r"), b"St": 3}, 1, {b"S": Name(b"D"), b"St": 5, b"P": Str(b"A-")}, 2, {b"S": Name(b"a"), b"St": 27}], b"Limits": [0, 2]},
         14: {b"Type": Name(b"Outlines"), b"First": Ref(15, 0), b"Last": Ref(16, 0), b"Count": 2},
         15: {b"Title": Str(b"Chapter 1"), b"Parent": Ref(14, 0), b"Next": Ref(16, 0), b"Dest": [Ref(5, 0), Name(b"XYZ"), 0, 300, None]},
         16: {b"Title": Str(b"\xfe\xff\x00C\x002"), b"Parent": Ref(14, 0), b"Prev": Ref(15, 0), b"A": {b"S": Name(b"GoTo"), b"D": Str(b"named")}},
